@@ -17,6 +17,7 @@ import (
 	"path/filepath"
 	"strings"
 	"sync"
+	"time"
 
 	"github.com/notaryproject/notation-core-go/revocation/result"
 	"github.com/notaryproject/notation-core-go/signature"
@@ -46,10 +47,18 @@ type Case struct {
 	Roots     string // "" (the authority's root) | nil | empty: the caller's TSA root pool
 	ViaCtx    bool   // the request went through SignRequest.WithContext before signing
 	Direct    bool   // a caller-written Timestamper (no tspclient HTTP client, no reply validation of its own)
+	// STInTSAValidity: the request's signing time is moved into the (long past /
+	// far future) validity period of the authority's chain: what counts is
+	// whether the chain is good at the time of signing, not at the time claimed
+	STInTSAValidity bool
 }
 
 func (c Case) desc() string {
-	return fmt.Sprintf("%s key=%s scheme=%s tsa=%s(len %d) validator=%s timestamper=%v roots=%q via-context=%v direct-timestamper=%v", mtName(c.MT), c.Kind, c.Scheme, c.Behaviour, c.TSALen, c.Validator, !c.NoTSA, c.Roots, c.ViaCtx, c.Direct)
+	st := ""
+	if c.STInTSAValidity {
+		st = " signing-time-inside-the-authority's-validity"
+	}
+	return fmt.Sprintf("%s key=%s scheme=%s tsa=%s(len %d) validator=%s timestamper=%v roots=%q via-context=%v direct-timestamper=%v%s", mtName(c.MT), c.Kind, c.Scheme, c.Behaviour, c.TSALen, c.Validator, !c.NoTSA, c.Roots, c.ViaCtx, c.Direct, st)
 }
 
 func mtName(mt string) string {
@@ -129,6 +138,14 @@ func execute(r *core.Run, c *Case) {
 	net.Handle("tsa.c15.test/tsr", tsa.Handler())
 	req := sims.BaseRequest(c.MT, signer, signature.SigningScheme(c.Scheme))
 	req.TSARootCAs = tsa.Roots()
+	if c.STInTSAValidity {
+		switch c.Behaviour {
+		case "tsa-chain-expired":
+			req.SigningTime = time.Date(2009, 6, 1, 12, 0, 0, 0, time.UTC)
+		case "tsa-chain-not-yet-valid":
+			req.SigningTime = time.Date(2091, 6, 1, 12, 0, 0, 0, time.UTC)
+		}
+	}
 	switch c.Roots {
 	case "nil":
 		req.TSARootCAs = nil
@@ -433,6 +450,13 @@ func run(r *core.Run) int {
 						continue
 					}
 					cases = append(cases, &Case{MT: mt, Kind: "p256", Scheme: "notary.x509", Behaviour: b, TSALen: n, Validator: v})
+				}
+			}
+			if b == "tsa-chain-expired" || b == "tsa-chain-not-yet-valid" {
+				for _, n := range []int{1, 2, 3} {
+					for _, v := range []string{"absent", "vector:" + strings.TrimSuffix(strings.Repeat("OK,", n), ",")} {
+						cases = append(cases, &Case{MT: mt, Kind: "p256", Scheme: "notary.x509", Behaviour: b, TSALen: n, Validator: v, STInTSAValidity: true})
+					}
 				}
 			}
 			// no timestamp due: other scheme, or no timestamper
